@@ -13,7 +13,9 @@ private tmpfs tree, with a real appenv.LinuxAppEnvironment.
 
 Simulated: clock, directory listing order, process death (SimCrash before the
 k-th mutating call of an op), netdev / ipset / newnet (in-process fakes that
-can fail), the host port table, DNS.  See DESIGN.md 2.5, 2.6, C14, C16.
+can fail), the host port table, DNS, transient failures of the k-th
+open()/read of the files a start or a finish works with (netshims.SeamIO).
+See DESIGN.md 2.5, 2.6, C14, C16.
 """
 
 import errno
@@ -43,6 +45,7 @@ from treadmill import rulefile
 from treadmill import runtime
 from treadmill import subproc
 from treadmill import vipfile
+from treadmill.appcfg import manifest as app_manifest
 from treadmill.appenv import _linux as appenv_linux
 from treadmill.runtime.linux import _finish
 from treadmill.runtime.linux import _run
@@ -244,7 +247,7 @@ class World:
                 'svc_restarts', 'stale_requests_reclaimed',
                 'starts_ok', 'starts_failed',
                 'finishes_complete', 'finishes_repeated',
-                'finish_failed_then_retried',
+                'finish_failed_then_retried', 'finish_raised_on_io_error',
                 'finish_with_others_registered', 'finish_removed_entries',
                 'port_collisions', 'port_reused_after_death', 'ip_reused',
                 'drain_checks', 'same_instance_overlap',
@@ -252,7 +255,8 @@ class World:
             self.faults = dict.fromkeys((
                 'start_killed', 'finish_killed', 'finish_killed_then_repeated',
                 'command_failed', 'eaddrinuse', 'resolver_failed',
-                'presence_failed'), 0)
+                'presence_failed', 'io_error', 'io_error_in_start',
+                'io_error_in_finish'), 0)
         # -- fakes
         self.netdev = netshims.FakeNetdev(seam, subproc, EXT_DEV,
                                           real=real_netdev)
@@ -264,6 +268,7 @@ class World:
         self.rnd.hot = config.get('hot_ports', 6)
         self.pm = netshims.FakePluginManager()
         self.pid = netshims.FakeOsGetpid()
+        self.io = netshims.SeamIO(seam)
         # -- real environment
         tmroot = os.path.join(root, 'tm')
         vol = os.path.join(root, 'vol')
@@ -360,6 +365,8 @@ class World:
     def close(self):
         self._svc_down()
 
+    IO_FAULT_OPS = ('c_start', 'c_finish')
+
     def apply(self, op):
         self.clock.advance(1.0)
         fault = op.get('stat_fault')
@@ -371,16 +378,26 @@ class World:
             self.probes['order_permuted_listings'] += 1
         self.sock.failing = set(op.get('resolve_fault') or ())
         self.sock.resolve_failures = 0
+        # transient failure of the k-th open()/read of the files a start or
+        # a finish works with (any file; the op says which call and how)
+        iof = op.get('io_fault') if op['op'] in self.IO_FAULT_OPS else None
+        self.io.begin((int(iof['at']), int(iof['errno'])) if iof else None)
         try:
             getattr(self, 'op_' + op['op'])(op)
         finally:
             self.sock.failing = set()
             if self.sock.resolve_failures:
                 self._bump(self.faults, 'resolver_failed')
+            if self.io.fired:
+                self._bump(self.faults, 'io_error')
+                self._bump(self.faults, 'io_error_in_' + op['op'][2:])
+                self.log.ev('io_error', *self.io.last)
             if self.seam.stat_faults_fired:
                 self._bump(self.faults, 'lookup_failed')
-            elif self.seam.failed and not self.sock.resolve_failures:
+            elif self.seam.failed and not self.sock.resolve_failures and \
+                    not self.io.fired:
                 self.faults['command_failed'] += 1
+            self.io.end()
             if self.seam.failed or self.seam.crashed:
                 self.faulted = True
             self.seam.end()
@@ -1154,6 +1171,7 @@ class World:
         # the service is another process: the kill / failure points of the
         # waiting process do not apply to it
         seam.crash_at = seam.fail_at = seam.stat_fault = None
+        io_saved = self.io.suspend()
         try:
             for _ in range(200):
                 if os.path.exists(filename):
@@ -1171,6 +1189,7 @@ class World:
         finally:
             (seam.crash_at, seam.fail_at, seam.steps, seam.commands,
              seam.stat_fault, self.ipt.actor, self.sock.actor) = saved
+            self.io.resume(io_saved)
 
     def svc_pending(self):
         if self.impl is None:
@@ -1400,8 +1419,9 @@ class World:
             cont['state'] = 'failed'
             self.probes['starts_failed'] += 1
             self.sock.release(name)
+            # (the scratch root differs from run to run)
             self.log.ev('c_start', name, 'aborted', type(err).__name__,
-                        str(err)[:80])
+                        str(err).replace(self.root, '<root>')[:80])
         if self.prop == 'C16' and self.tm_env.svc_presence.fired:
             self.faults['presence_failed'] += 1
         self.tm_env.svc_presence.fault = None
@@ -1463,6 +1483,8 @@ class World:
             # succeeds)
             self.log.ev('c_finish', name, 'raised', type(err).__name__)
             cont['finish_failed'] = True
+            if self.io.fired:
+                self.probes['finish_raised_on_io_error'] += 1
             if not self.seam.failed:
                 self.fail('C16:finish-raised:%s' % type(err).__name__,
                           'finish of %s raised %r without an injected fault '
@@ -1598,6 +1620,15 @@ C16_WEIGHTS = [
     ('c_remove', 4), ('port_busy', 2), ('advance', 1),
 ]
 
+# transient failures of open(2) / read(2) (never ENOENT: that is an answer)
+IO_ERRNOS = (errno.EIO, errno.ENFILE, errno.EMFILE, errno.ENOMEM,
+             errno.EACCES)
+# I/O points (io.open + reads) of a complete start / finish of a private
+# network container on this tree: request.yml, svc_req_id (r, w), reply.yml /
+# state.json, reply.yml, svc_req_id.  Upper bounds for the generator only.
+IO_POINTS_START = 6
+IO_POINTS_FINISH = 7
+
 APPS = ('proid.web', 'proid.webx', 'proid.db')
 SPEC_APPS = ('proid.web#0000000001', 'proid.web#00000000010',
              'proid.webx#0000000001', 'proid.db#0000000002')
@@ -1612,6 +1643,9 @@ class Generator:
         self.rng = streams.get('gen')
         self.frng = streams.get('fault')
         self.orng = streams.get('fsorder')
+        # (a stream of its own: the other decisions of a seed are what they
+        # were before this fault kind existed)
+        self.irng = streams.get('iofault')
         table = C14_WEIGHTS if prop == 'C14' else C16_WEIGHTS
         self.weights = [(k, w * config['wmul'].get(k, 1.0)) for k, w in table]
         self.n = 0
@@ -2128,6 +2162,8 @@ class Generator:
         op = {'name': name, 'pid': self.pids,
               'rkey': self.rng.randint(1, 1 << 30), 'ord': self.order()}
         self._resolve_fault(op, man)
+        if not man['shared_network'] and self._io_fault(op, IO_POINTS_START):
+            return op
         if not man['shared_network'] and self.frng.random() < \
                 self.config.get('p_presence_fault', 0.0):
             # the last step of the start: presence registration is answered
@@ -2167,6 +2203,8 @@ class Generator:
         cont = world.cont[name]
         op = {'name': name, 'ord': self.order()}
         self._resolve_fault(op, cont['manifest'])
+        if self._io_fault(op, IO_POINTS_FINISH):
+            return op
         if cont['state'] == 'started' and not cont['finished']:
             total = self._finish_steps(cont)
             if self.frng.random() < self.config['p_finish_kill']:
@@ -2182,6 +2220,17 @@ class Generator:
                6)
         return self._faults(op, est, self.config['p_finish_kill'],
                             self.config['p_cmd_fail'])
+
+    def _io_fault(self, op, points):
+        """One system call fails once: the k-th open() / read of the files
+        this start or finish works with (whichever file that is) returns a
+        transient error; the same call succeeds when it is made again."""
+        p_fault = self.config.get('p_io_fault', 0.0)
+        if not p_fault or self.irng.random() >= p_fault:
+            return False
+        op['io_fault'] = {'at': self.irng.randint(1, points),
+                          'errno': self.irng.choice(IO_ERRNOS)}
+        return True
 
     def _resolve_fault(self, op, man):
         """The resolver fails (socket.gaierror) for some of the passthrough
@@ -2252,6 +2301,8 @@ def make_config(prop, tier, rng):
     if extra and prop == 'C14':
         # the user of one pool restarts while the others hold addresses
         wmul['vip_init'] = rng.choice([1.0, 4.0, 8.0])
+    # transient open()/read errors in starts and finishes (C16; drawn last)
+    cfg['p_io_fault'] = rng.choice([0.0, 0.1, 0.25])
     return cfg
 
 
@@ -2343,6 +2394,18 @@ class NetSim(enginemod.Engine):
         'lookup faults: stat()/lstat()/os.path.exists() of one named entry '
         'fail with EIO/ESTALE/EACCES during a GC op or a service start '
         '("stat_fault" in the op)',
+        'transient system-call failures (C16): `io` of '
+        'services._base_service, appcfg.manifest and runtime.linux._finish '
+        'is a counting pass-through to the real io module; every io.open() '
+        'and every read call on a file so opened (request.yml, svc_req_id, '
+        'reply.yml, state.json - whichever file it is) is an I/O point of '
+        'the start / finish in progress, and the k-th one fails once with '
+        'EIO / ENFILE / EMFILE / ENOMEM / EACCES when the op says '
+        '"io_fault": {"at": k, "errno": E} (open-only errnos reach a read '
+        'as EIO); the calls of the network service made while a client '
+        'waits are not points of the client; a finish that raises is '
+        'retried like any failed finish, a finish that returns is held to '
+        'the leftover clause',
         'clock (virtual); directory listing order (sorted, then permuted by '
         'the op); tempfile.mktemp in _base_service (counter)',
     )
@@ -2422,6 +2485,10 @@ class NetSim(enginemod.Engine):
                 'or, under an injected resolver fault, not at all); a finish '
                 'that raises is a failed operation and is retried; the '
                 'firewall plug-in is absent',
+                'an injected open()/read failure is transient (one call, '
+                'one errno other than ENOENT; the same call succeeds when '
+                'repeated) and hits files opened through io.open only '
+                '(not fs.write_safe temporary files, not builtin open)',
                 'the network service is up and fault-free during C16 runs',
                 'a finished container is one whose _cleanup_network returned; '
                 'the vip and the prod/non-prod ip-set entry are compared once '
@@ -2547,6 +2614,12 @@ class NetSim(enginemod.Engine):
         seam_glob = fsseam.SeamGlob(seam)
         for mod in (_base_service, _linux_base_service, treadmill.fs):
             patches.set(mod, 'os', seam_os)
+        # every file the start / finish path opens with io.open: request.yml,
+        # svc_req_id, reply.yml (resource service client), state.json
+        # (runtime.load_app -> appcfg.manifest.read), the exit files of
+        # _finish
+        for mod in (_base_service, app_manifest, _finish):
+            patches.set(mod, 'io', world.io)
         # GC scan loops.  RuleMgr.garbage_collect is pre-emptible at the
         # heartbeat it makes itself; VipMgr.garbage_collect and
         # endpoints.garbage_collect (no callback) before each entry's stat();
